@@ -3,7 +3,17 @@ package prng
 
 type R struct{ s uint64 }
 
-func New(seed uint64) *R { return &R{s: seed*0x9E3779B97F4A7C15 + 0x1234567} }
+// New derives the initial state from the seed through the output function, so that the streams of neighbouring seeds are
+// unrelated (with a state that is linear in the seed, stream s+1 is stream s shifted by one draw).
+func New(seed uint64) *R {
+	z := seed + 0x1234567
+	z = (z ^ (z >> 30)) * 0xBF58476D1CE4E5B9
+	z = (z ^ (z >> 27)) * 0x94D049BB133111EB
+	z ^= z >> 31
+	z = (z ^ 0xD6E8FEB86659FD93) * 0x9E3779B97F4A7C15
+	z = (z ^ (z >> 32)) * 0xBF58476D1CE4E5B9
+	return &R{s: z ^ (z >> 29)}
+}
 
 func (r *R) U64() uint64 {
 	r.s += 0x9E3779B97F4A7C15
